@@ -132,3 +132,33 @@ Example domain_rule_boundaries :
   domain_rule_matches (s "*.example.com") (s "mallory@corp.example.com@evil.test") = false /\
   domain_rule_matches (s "example.com") (s "a@b@example.com") = true.
 Proof. vm_compute. repeat split. Qed.
+
+(* ---- admission at login ---- *)
+Lemma login_without_email_refused domains file allowed s :
+  a_email s = [] -> login_admits (email_valid domains file) allowed s = false.
+Proof. intro H. unfold login_admits, email_valid. rewrite H. reflexivity. Qed.
+
+Lemma login_admits_rules validator allowed s :
+  login_admits validator allowed s = true <-> validator (a_email s) = true /\ authorize allowed s = true.
+Proof. unfold login_admits. apply andb_true_iff. Qed.
+
+(* what is admitted at login is served by a request made under the same rules *)
+Lemma admitted_then_served validator allowed s :
+  login_admits validator allowed s = true ->
+  get_authenticated_session false validator allowed (Some s) = (AuthOK (Some s), false).
+Proof.
+  intro H. apply login_admits_rules in H as [Hv Ha]. unfold get_authenticated_session.
+  rewrite Hv, Ha. cbn. rewrite andb_false_r. reflexivity.
+Qed.
+
+(* and, for a session that carries an e-mail, the converse: the per-request rule is the login rule *)
+Lemma served_then_admissible validator allowed s c :
+  a_email s <> [] ->
+  get_authenticated_session false validator allowed (Some s) = (AuthOK (Some s), c) ->
+  login_admits validator allowed s = true.
+Proof.
+  intros Hne H. unfold get_authenticated_session in H. unfold login_admits.
+  destruct (a_email s) as [|e0 er] eqn:He; [congruence|]. cbn in H.
+  destruct (validator (e0 :: er)); cbn in H; [|discriminate].
+  destruct (authorize allowed s); cbn in H; [reflexivity|discriminate].
+Qed.
